@@ -82,7 +82,7 @@ func (s *genState) versOfKind(kind string, disk int) []int {
 }
 
 // profile: base weights per op kind for each property.
-var opKinds = []string{"ins", "del", "get", "size", "iter", "seek", "cur", "clone", "cursor", "fork", "persist", "reload", "restart", "diff", "difflinks", "probe", "newtree", "canon", "bulk"}
+var opKinds = []string{"ins", "del", "get", "size", "iter", "seek", "cur", "clone", "cursor", "fork", "persist", "reload", "restart", "diff", "difflinks", "probe", "newtree", "canon", "bulk", "rootcheck"}
 
 var profiles = map[string]map[string]int{
 	"C01": {"ins": 30, "del": 18, "get": 10, "size": 2, "iter": 5, "seek": 0, "cur": 0, "clone": 3, "fork": 3, "persist": 6, "reload": 4, "restart": 2, "diff": 1, "newtree": 1, "cursor": 1},
@@ -271,6 +271,9 @@ func GenScenario(prop string, seed uint64, tier string) *Scenario {
 		s.emitPersist(g.Intn(len(s.trees)), prop)
 		s.emit("probe", prop)
 		s.emit("probe", prop)
+	case "C19":
+		s.emitPersist(g.Intn(len(s.trees)), prop)
+		s.emit("rootcheck", prop)
 	}
 	sc.Ops = s.ops
 	return sc
@@ -492,6 +495,16 @@ func (s *genState) emit(kind, prop string) {
 			op.Key = g.Intn(s.cfg.U)
 		}
 		s.ops = append(s.ops, op)
+	case "rootcheck":
+		roots := s.versOfKind("root", -1)
+		if len(roots) == 0 {
+			s.emitPersist(ti, prop)
+			roots = s.versOfKind("root", -1)
+			if len(roots) == 0 {
+				return
+			}
+		}
+		s.ops = append(s.ops, Op{K: "rootcheck", A: refVerBase + roots[g.Intn(len(roots))]})
 	case "canon":
 		if !t.hasRoot || t.dirty {
 			s.emitPersist(ti, prop)
